@@ -1,6 +1,7 @@
 package rules
 
 import (
+	"go/constant"
 	"go/ast"
 	"fmt"
 	"go/token"
@@ -342,6 +343,8 @@ func runC11(p *core.Program, r *core.Report) {
 	}
 	// ---------- R11.2 the classification looks at every token
 	checkKindHelpers(p, r, kindFn)
+	// ---------- R11.4 the decoder refuses only what the format rules out
+	checkDecoderRefusals(p, r, dec)
 
 	// ---------- R11.3 full layout offsets
 	checkFullLayout(p, r, enc, dec)
@@ -1181,4 +1184,96 @@ func isMaxAccumulator(p *core.Program, v ssa.Value) (bool, string) {
 		}
 	}
 	return true, ""
+}
+
+// checkDecoderRefusals: every error return of the decoder is taken for one of the
+// documented reasons — an empty or truncated index (a test on len(index)), an
+// unknown kind, or a password shorter than the lengths demand (an ordered
+// comparison of a position with the number of characters). Any other test that
+// leads to an error (for instance "the lengths must add up to …" computed in a
+// narrower type) can refuse a pair that MakeIndices produced.
+func checkDecoderRefusals(p *core.Program, r *core.Report, dec *ssa.Function) {
+	if len(dec.Params) != 3 {
+		return
+	}
+	name := core.FuncName(dec)
+	ti := ssa.Value(dec.Params[1])
+	n := 0
+	for _, ret := range core.Returns(dec) {
+		if len(ret.Results) != 2 || core.IsNilConst(ret.Results[1]) || !isFreshError(ret.Results[1]) {
+			continue
+		}
+		n++
+		reason, unknown := refusalReason(ret.Block(), ti, 0)
+		r.Check(reason != "", "R11.4", name, "the decoder refuses only an empty/truncated index, an unknown kind or a password too short for the lengths", p.InstrPos(ret),
+			"error returned under "+unknown+": a pair produced by MakeIndices could be refused")
+	}
+	r.Floor("R11.4", "error returns of the decoder", n, 3)
+}
+
+
+// refusalReason classifies the innermost test under which block b runs (see checkDecoderRefusals).
+func refusalReason(b *ssa.BasicBlock, ti ssa.Value, depth int) (reason, unknown string) {
+	gs := core.Guards(b)
+	if len(gs) == 0 || depth > 3 {
+		return "", "no test"
+	}
+	g := gs[0]
+	var lenOfIndex func(v ssa.Value, d int) bool
+	lenOfIndex = func(v ssa.Value, d int) bool {
+		if d > 3 {
+			return false
+		}
+		if bo, isB := v.(*ssa.BinOp); isB && (bo.Op == token.REM || bo.Op == token.SUB || bo.Op == token.QUO || bo.Op == token.ADD) {
+			return lenOfIndex(bo.X, d+1)
+		}
+		x, isLen := core.LenOf(v)
+		if !isLen {
+			return false
+		}
+		if sl, isSl := core.StripType(x).(*ssa.Slice); isSl {
+			x = sl.X
+		}
+		return core.StripType(x) == ti
+	}
+	if rel, ok := core.AsRel(g); ok {
+		switch {
+		case lenOfIndex(rel.X, 0) || lenOfIndex(rel.Y, 0):
+			return "index length", ""
+		case core.NamedOf(rel.X.Type()) == core.ModulePath+".IndexKind" && rel.Op == token.NEQ:
+			return "kind", ""
+		case rel.Op == token.GTR || rel.Op == token.GEQ || rel.Op == token.LSS || rel.Op == token.LEQ:
+			if isIntType(rel.X.Type()) && isIntType(rel.Y.Type()) {
+				return "position against the number of characters", ""
+			}
+		}
+		return "", core.Describe(g.Cond)
+	}
+	// a success flag handed back by an expanded helper: every edge that sets it to the failing
+	// value must itself be taken for a documented reason
+	cond := g.Cond
+	pos := g.Pos
+	if u, isU := cond.(*ssa.UnOp); isU && u.Op == token.NOT {
+		cond, pos = u.X, !pos
+	}
+	if phi, isPhi := cond.(*ssa.Phi); isPhi {
+		n := 0
+		for i, e := range phi.Edges {
+			c, isC := e.(*ssa.Const)
+			if !isC || c.Value == nil || c.Value.Kind() != constant.Bool {
+				return "", core.Describe(g.Cond)
+			}
+			if constant.BoolVal(c.Value) != pos {
+				continue
+			}
+			n++
+			if rsn, unk := refusalReason(phi.Block().Preds[i], ti, depth+1); rsn == "" {
+				return "", unk
+			}
+		}
+		if n > 0 {
+			return "flag set for a documented reason", ""
+		}
+	}
+	return "", core.Describe(g.Cond)
 }
